@@ -161,61 +161,31 @@ theorem WF_run (ops : List Op) : ∃ v, runOps Var.zero ops = .ok v ∧ v.WF :=
   let ⟨v', e, w, _⟩ := runOps_spec ops Var.zero Var.WF.zero_var
   ⟨v', e, w⟩
 
-/-- Every operation outside the recorded divergence (`opOK`: `unset a` on a variable that is
-    not `IsSet()`) is the bash operation on the abstract variable (map + unset/scalar/array tag). -/
-theorem op_refine (v : Var) (op : Op) (h : v.WF) (ok : opOK v op = true) :
-    ∃ v', applyOp v op = .ok v' ∧ v'.WF ∧ v'.abs = specOp v.abs op :=
+/-- Every operation on a well-formed variable that `IsSet()` whenever it has a value (both kept
+    by every operation) is the bash operation on the abstract variable (map + unset/scalar/array
+    tag). -/
+theorem op_refine (v : Var) (op : Op) (h : v.WF) (hs : v.SetOK) :
+    ∃ v', applyOp v op = .ok v' ∧ v'.WF ∧ v'.SetOK ∧ v'.abs = specOp v.abs op :=
   let ⟨v', e, w, ab⟩ := applyOp_spec v op h
-  ⟨v', e, w, ab ok⟩
+  ⟨v', e, w, applyOp_setOK hs e, ab (opOK_of_setOK hs op)⟩
 
-/-- The full statement of the property on the model: for EVERY operation sequence (element and
-    whole-array assignment, `+=` of arrays, strings and elements, `read -a`, `mapfile`, negative and
-    out-of-range subscripts, unsets), running the code's operations and abstracting = running
-    bash's operations.  It is false of the code as it stands (`mapfile_unset_counterexample`), so it
-    is kept as a statement. -/
-def ops_refine_statement : Prop :=
-  ∀ ops : List Op, ∃ v, runOps Var.zero ops = .ok v ∧ v.abs = specRun SVar.unset ops
-
-/-- What holds: every sequence in which `unset a` is never applied to a variable that is not
-    `IsSet()` (`runOK`, decidable along the run) refines the specification — by induction over
-    the sequence, from any well-formed variable. -/
-theorem ops_refine_partial_from (v : Var) (h : v.WF) (ops : List Op) (ok : runOK v ops = true) :
+/-- From any such variable: running the code's operations and abstracting = running bash's
+    operations on the abstraction — by induction over the sequence. -/
+theorem ops_refine_from (v : Var) (h : v.WF) (hs : v.SetOK) (ops : List Op) :
     ∃ v', runOps v ops = .ok v' ∧ v'.WF ∧ v'.abs = specRun v.abs ops :=
   let ⟨v', e, w, ab⟩ := runOps_spec ops v h
-  ⟨v', e, w, ab ok⟩
+  ⟨v', e, w, ab (runOK_always ops v h hs)⟩
 
-theorem ops_refine_partial (ops : List Op) (ok : runOK Var.zero ops = true) :
+/-- The property, at full strength: for EVERY operation sequence (element and whole-array
+    assignment, `+=` of arrays, strings and elements, explicit `[i]=` resetting the counter,
+    `read -a`, `mapfile`, negative and out-of-range subscripts, unset of elements and of the
+    variable) starting from an unset variable, the code never panics, keeps the representation
+    invariant, and the array it ends with is the one bash's semantics gives. -/
+theorem ops_refine (ops : List Op) :
     ∃ v, runOps Var.zero ops = .ok v ∧ v.WF ∧ v.abs = specRun SVar.unset ops :=
-  ops_refine_partial_from Var.zero Var.WF.zero_var ops ok
+  ops_refine_from Var.zero Var.WF.zero_var (fun c => (c rfl).elim) ops
 
-/-- In particular, unconditionally for every sequence without `mapfile` (the only operation that
-    leaves an array not `IsSet()`): all assignments, `+=`, `read -a`, negative and out-of-range
-    subscripts, element and whole-variable unsets. -/
-theorem ops_refine_without_mapfile (ops : List Op)
-    (hm : ops.all (fun o => !isMapfile o) = true) :
-    ∃ v, runOps Var.zero ops = .ok v ∧ v.WF ∧ v.abs = specRun SVar.unset ops :=
-  ops_refine_partial ops
-    (runOK_of_no_mapfile ops hm Var.zero Var.WF.zero_var (fun c => (c rfl).elim))
-
-/-! ### The open divergence (replayed on the Go code and on bash by the harness) -/
-
-/-- `mapfile -t a <<< z; unset a`: the array made by `mapfile` is not `IsSet()`, so the `unset`
-    builtin leaves it alone; bash unsets it. -/
-theorem mapfile_unset_counterexample :
-    runOps Var.zero [.mapfile [[122]], .unsetAll] = .ok ⟨.indexed, false, [], ⟨[[122]], none⟩, false⟩ ∧
-    specRun SVar.unset [.mapfile [[122]], .unsetAll] = SVar.unset := by
-  decide
-
-theorem ops_refine_statement_false : ¬ ops_refine_statement := by
-  intro h
-  obtain ⟨v, e, ab⟩ := h [.mapfile [[122]], .unsetAll]
-  rw [mapfile_unset_counterexample.1] at e
-  cases e
-  rw [mapfile_unset_counterexample.2] at ab
-  revert ab
-  decide
-
-/-! ### Repaired by `fix:` commits 1543c4b, 52fb9f0, 4e7d138 (witnesses in corpus/C33-fixed.txt):
+/-! ### Repaired by `fix:` commits 1543c4b, 52fb9f0, 4e7d138, 87a26e0 (witnesses in corpus/C33-fixed.txt):
     the model of the current code gives bash's answer on the former counter-examples -/
 
 def bX : Str := [120]
@@ -246,6 +216,12 @@ theorem unset_after_elem_assign_fixed :
     specRun SVar.unset [.setElem 0 bX, .unsetAll] = SVar.unset := by
   decide
 
+/-- `mapfile -t a <<< z; unset a`: the array made by `mapfile` `IsSet()` and is unset, as in bash. -/
+theorem mapfile_unset_fixed :
+    runOps Var.zero [.mapfile [[122]], .unsetAll] = .ok Var.zero ∧
+    specRun SVar.unset [.mapfile [[122]], .unsetAll] = SVar.unset := by
+  decide
+
 /-! ### Non-vacuity -/
 
 /-- A run through dense → sparse → dense representations with negative subscripts, an explicit
@@ -260,15 +236,12 @@ def demoOps : List Op :=
    .setStr bY, .setElem 1 bQ,                  -- a=y; a[1]=q          {0:y 1:q}
    .appElem (-1) bR, .appElem 4 bZ]            -- a[-1]+=r; a[4]+=z    {0:y 1:qr 4:z}
 
-example : runOK Var.zero demoOps = true := by decide
 example : runOps Var.zero demoOps
     = .ok ⟨.indexed, true, [], ⟨[bY, bQ ++ bR, bZ], some [0, 1, 4]⟩, false⟩ := by decide
 example : specRun SVar.unset demoOps = ⟨.indexed, [(0, bY), (1, bQ ++ bR), (4, bZ)]⟩ := by decide
 /-- `read -a` / `mapfile` replace a sparse array wholesale: indices restart at 0. -/
 example : runOps Var.zero [.assign [.at 3 bX, .at 7 bY], .readArr [bQ, bR, bZ], .unsetElem 1]
     = .ok ⟨.indexed, true, [], ⟨[bQ, bZ], some [0, 2]⟩, false⟩ := by decide
-example : runOK Var.zero [.assign [.at 3 bX], .mapfile [bQ, bR], .setElem 5 bZ, .unsetAll] = true := by
-  decide
 /-- Scalars: `s=x; s+=y; unset 's[-1]'` (refused, like bash); `unset 's[0]'` unsets. -/
 example : specRun SVar.unset [.setStr bX, .appStr bY, .unsetElem (-1)] = ⟨.str, [(0, bX ++ bY)]⟩ := by decide
 example : runOps Var.zero [.setStr bX, .appStr bY, .unsetElem (-1), .unsetElem 0] = .ok Var.zero := by decide
